@@ -72,3 +72,16 @@ Theorem C11_pause_views_are_the_sources :
             GenDecide.gen_SelfPaused c = self_paused_view c.
 Proof. exact DecideEq.pause_views_are_source. Qed.
 Print Assumptions C11_pause_views_are_the_sources.
+
+From DT Require GenHandlers HandlerEq.
+
+(* a local pause / resume: transport first, then the message of the right kind to the counterparty, then the
+   event for the local role; and the flag recorded for the counterparty's pause / resume.  The programs of
+   Node.v run like those regenerated from impl/impl.go Pause/ResumeDataTransferChannel and impl/utils.go *)
+Theorem C11_pause_handlers_are_the_sources : forall k,
+  HandlerEq.runs_like (HandlerEq.with_self (fun self => GenHandlers.gen_PauseDataTransferChannel self k)) (Node.pause_channel k) /\
+  HandlerEq.runs_like (HandlerEq.with_self (fun self => GenHandlers.gen_ResumeDataTransferChannel self k)) (Node.resume_channel k) /\
+  (forall self, GenHandlers.gen_pauseMessage self k = Node.pause_message self k true /\ GenHandlers.gen_resumeMessage self k = Node.pause_message self k false /\
+                GenHandlers.gen_pauseOther self k = Node.pause_other self k /\ GenHandlers.gen_resumeOther self k = Node.resume_other self k).
+Proof. exact HandlerEq.pause_handlers_are_source. Qed.
+Print Assumptions C11_pause_handlers_are_the_sources.
